@@ -52,13 +52,43 @@ OutChecks(o, exp) ==
           (IF Has(o, "hits") THEN Chk(o.ep \o ":accessor(tree) is leaf", o.hits = exp.leaves) ELSE <<>>))
 FlattenFamily(c) ==
   LET exp == Flatten(c.t, c.cfg) IN
-  Concat([j \in DOMAIN c.outs |-> OutChecks(c.outs[j], exp)]) \o
+  (IF Has(c, "only_again") THEN <<>> ELSE Concat([j \in DOMAIN c.outs |-> OutChecks(c.outs[j], exp)])) \o
   \* RT2/RT3 on the real outputs: re-flattening a rebuilt tree gives the identical leaves and an equal treespec
   (IF Has(c, "again") /\ c.outs[1].err = ""
    THEN Chk("again:leaves", c.outs[1].leaves = c.again.leaves) \o
         Chk("again:spec-equal", SpecEq(c.outs[1].spec, c.again.spec)) \o
         Chk("again:spec-exact", c.outs[1].spec = c.again.spec)
    ELSE <<>>)
+
+\* ---- C01: the round trip, stated on the real outputs ------------------------------------------
+\*  RT1: every rebuild route returns the original tree (same container types, keys in the same order, metadata,
+\*       identical leaf objects), built from new containers;  and it is what the specification's Unflatten builds
+\*  RT2: flattening it again gives the identical leaves and an equal treespec
+\*  RT3: n replacement leaves come back exactly; wrong counts are ValueErrors
+RoundTrip(c) ==
+  LET f == c.flat  pool == SubTrees(c.t) IN
+  Chk("flatten-ok", f.err = "") \o
+  (IF f.err # "" THEN <<>> ELSE
+     Concat([j \in DOMAIN c.rebuilt |->
+        LET r == c.rebuilt[j] IN
+        Chk(r.via \o ":no-error", r.err = "") \o
+        (IF r.err # "" THEN <<>> ELSE
+           Chk(r.via \o ":same-tree", r.tree = Strip(c.t, c.cfg)) \o
+           Chk(r.via \o ":spec-unflatten", r.tree = Unflatten(f.spec, f.leaves, pool).tree))]) \o
+     (IF Has(c, "again") THEN
+        Chk("again:no-error", c.again.err = "") \o
+        (IF c.again.err # "" THEN <<>> ELSE
+           Chk("again:leaves", c.again.leaves = f.leaves) \o
+           Chk("again:spec-equal", SpecEq(c.again.spec, f.spec) /\ HashKeyDoc(c.again.spec) = HashKeyDoc(f.spec)) \o
+           Chk("again:spec-exact", c.again.spec = f.spec))
+      ELSE <<>>) \o
+     (LET r == c.rep IN
+        Chk("rep:no-error", r.err = "") \o
+        (IF r.err # "" THEN <<>> ELSE
+           Chk("rep:spec-unflatten", r.tree = Unflatten(f.spec, r.ids, {}).tree) \o
+           Chk("rep:again-leaves", r.again.err = "" /\ r.again.leaves = r.ids) \o
+           Chk("rep:again-spec", r.again.err = "" /\ SpecEq(r.again.spec, f.spec) /\ r.again.spec = f.spec))) \o
+     Chk("wrong-count:ValueError", \A j \in DOMAIN c.bad : c.bad[j].err = "Value"))
 
 \* ---- unflatten -----------------------------------------------------------------------------
 UnflattenCase(c) ==
@@ -99,8 +129,16 @@ InspectCase(c) ==
 Verdict(c) ==
   CASE c.op = "flatten" -> FlattenFamily(c)
     [] c.op = "unflatten" -> UnflattenCase(c)
+    [] c.op = "roundtrip" -> RoundTrip(c)
     [] c.op = "inspect" -> InspectCase(c)
     [] OTHER -> <<"unknown-op">>
+
+\* what the specification expects for a case (used by tools/explain.py to annotate replay files)
+Expected(c) ==
+  CASE c.op = "flatten" -> Flatten(c.t, c.cfg)
+    [] c.op = "unflatten" -> Unflatten(c.spec, c.leaves, UNION {SubTrees(c.pool[i]) : i \in DOMAIN c.pool})
+    [] c.op = "roundtrip" -> [strip |-> Strip(c.t, c.cfg), unflat |-> Unflatten(c.flat.spec, c.flat.leaves, SubTrees(c.t))]
+    [] OTHER -> "n/a"
 
 Inv == lo = hi => LET v == Verdict(Cases[lo]) IN
                   IF v = <<>> THEN TRUE ELSE PrintT(<<"FAIL", lo, v>>)
